@@ -8,6 +8,7 @@ BIN = "h_world"
 # Per property: monitor tags that decide it, op kinds whose results form its projection of the
 # transcript (a model/implementation DIFF on another op kind is somebody else's business).
 PROBE_OPS = {"alive", "walive", "ejoin", "mask", "events"}   # printed by the harness after every mutating op anyway
+OP_ALIAS = {"gget": "get", "ggetmut": "getmut", "gins": "ins", "grem": "rem", "lget": "get", "lgetmut": "getmut"}   # same model ops
 STORE_OPS = ["get", "getmut", "has", "ins", "rem", "entry_or", "entry_rep", "entry_rem", "mut_or_default"]
 PROPS = {
     "C01": {"mon": ["C01"], "proj": ["create", "create_iter", "createw", "lazy_create"], "kind": "ent",
@@ -24,7 +25,7 @@ PROPS = {
     "C05": {"mon": ["C05"], "proj": ["del_now", "del_batch", "del_atomic", "del_all", "maintain", "mask", "createw", "create", "create_iter", "reg", "lazy_create"],
             "kind": "store", "focus": ["many", "any", "lazy", "many"], "sexh": [1, 6],
             "what": "a deletion taking effect purges the entity's components from every registered storage and nothing else; new entities start empty"},
-    "C08": {"mon": ["C08"], "proj": ["drop_world"], "ledger": True, "kind": "store", "focus": ["ledger", "any", "lazy", "many", "churn"], "sexh": [0, 1, 2, 5],
+    "C08": {"mon": ["C08"], "proj": ["drop_world"], "ledger": True, "kind": "store", "focus": ["ledger", "any", "lazy", "many", "churn", "fault"], "sexh": [0, 1, 2, 5],
             "what": "every value moved into the world is returned or destroyed exactly once; nothing is leaked once the world is dropped"},
     "C09": {"mon": ["C09"], "proj": ["lazy_ins", "lazy_ins_all", "lazy_rem", "lazy_create", "lazy_exec", "maintain", "in"], "kind": "store",
             "focus": ["lazy", "lazy", "lazy", "many"], "sexh": [1],
@@ -75,6 +76,10 @@ def plan(prop, tier, seed):
                 runs.append((f"sgen-{f}-{i}", ["sgen", str(seed * 1000 + i), "900" if f in ("fault", "faultchurn") else "350", "120" if f in ("churn", "faultchurn") else "45", f]))
             for k in spec["sexh"][:4]:
                 runs.append((f"sexh{k}/3", ["sexh", str(k), "3"]))
+            if prop == "C12":
+                # the same tracked histories with a ZERO-SIZED component type in kind 6 (values always 0)
+                runs.append(("sgen-tracked-zst6", ["sgen", str(seed * 1000 + 77), "400", "45", "tracked"], {"VH_ZST6": "1"}))
+                runs.append(("sexh6/3-zst6", ["sexh", "6", "3"], {"VH_ZST6": "1"}))
         else:
             for rep in range(4):
                 for i, f in enumerate(foci):
@@ -83,24 +88,41 @@ def plan(prop, tier, seed):
                 runs.append((f"sexh{k}/3", ["sexh", str(k), "3"]))
                 for s in range(4):
                     runs.append((f"sexh{k}/4/{s}", ["sexh", str(k), "4", str(s), "4"]))
+            if prop == "C12":
+                for i in range(4):
+                    runs.append((f"sgen-tracked-zst6-{i}", ["sgen", str(seed * 1000 + 77 + i), "2500", "90", "tracked"], {"VH_ZST6": "1"}))
+                runs.append(("sexh6/3-zst6", ["sexh", "6", "3"], {"VH_ZST6": "1"}))
+                for s in range(4):
+                    runs.append((f"sexh6/4/{s}-zst6", ["sexh", "6", "4", str(s), "4"], {"VH_ZST6": "1"}))
     return runs
 
 
 LEDGER = {"on": False}
 
 
-def henv():
+# environment that belongs to the INPUT of a run (recorded in replays as `# env K=V`): set, during the sequential
+# reporting phase, to the one of the run being reported, so that re-runs and shrinking happen under it
+EXTRA_ENV = {}
+
+
+def henv(extra=None):
     e = dict(os.environ)
     if LEDGER["on"]:
         e["VH_LEDGER"] = "1"
+    e.update(EXTRA_ENV if extra is None else extra)
     return e
 
 
+def env_header():
+    return [f"env {k}={v}" for k, v in EXTRA_ENV.items()]
+
+
 def run_one(args):
-    label, tail = args
-    lines, hrc, err = vlib.pipe_to_driver([vlib.hbin(BIN)] + tail, env=henv())
+    label, tail = args[0], args[1]
+    extra = args[2] if len(args) > 2 else {}
+    lines, hrc, err = vlib.pipe_to_driver([vlib.hbin(BIN)] + tail, env=henv(extra))
     r = vlib.parse_driver(lines)
-    r["label"], r["tail"], r["hrc"], r["err"] = label, tail, hrc, err
+    r["label"], r["tail"], r["hrc"], r["err"], r["env"] = label, tail, hrc, err, extra
     return r
 
 
@@ -112,6 +134,8 @@ def relevant(prop, r):
         op = (vlib.field(d, "op") or "[]").strip("[]").split()
         if op and op[0] == "in" and "in" not in spec["proj"]:
             op = op[2:]
+        if op:
+            op[0] = OP_ALIAS.get(op[0], op[0])
         if op and op[0] in spec["proj"]:
             diffs.append(d)
         elif spec.get("ledger") and "impl=[destroyed" in d:
@@ -143,19 +167,26 @@ def search_from(prop, base_ops, tier, seed):
     """Correspondence broke without a monitor failure: look for a property failure in
     continuations of the diverging script (all alphabet continuations to depth d, plus random)."""
     depth = "2" if tier == "quick" else "3"
+    ngen = "400" if tier == "quick" else "5000"
+    # a base with thousands of entities is replayed by every continuation: keep the search inside the time budget
+    weight = len(base_ops) + sum(int(t) for l in base_ops for t in l.split() if t.isdigit() and len(t) < 7)
+    if weight > 1500:
+        depth, ngen = "1", ("40" if tier == "quick" else "400")
     path = os.path.join(vlib.TMP, f"base-{os.getpid()}.ops")
     with open(path, "w") as f:
         f.write("case base\n" + "\n".join(base_ops) + "\n")
     found = None
-    for tail in (["cont", path, depth], ["contgen", path, str(seed), "400" if tier == "quick" else "5000", "12"]):
+    for tail in (["cont", path, depth], ["contgen", path, str(seed), ngen, "12"]):
         keep = os.path.join(vlib.TMP, f"cont-{os.getpid()}.txt")
-        lines, hrc, err = vlib.pipe_to_driver([vlib.hbin(BIN)] + tail, keep=keep, env=henv())
+        lines, hrc, err = vlib.pipe_to_driver([vlib.hbin(BIN)] + tail, keep=keep, env=henv(),
+                                              timeout=240 if tier == "quick" else 1800)
         r = vlib.parse_driver(lines)
         mons, _ = relevant(prop, r)
         if mons:
             cid = vlib.field(mons[0], "case")
             found = (vlib.extract_case(keep, cid), mons[0])
-        os.unlink(keep)
+        if os.path.exists(keep):
+            os.unlink(keep)
         if found:
             break
     os.unlink(path)
@@ -168,11 +199,14 @@ def report_failures(prop, tier, seed, results):
     known = [k for k in vlib.known_findings() if k["property"] == prop]
     violations = 0
     seen_canon = set()
-    for r in results:
+    # runs with a verdict of the property monitor first (a concrete failing history), correspondence breaks after them
+    for r in sorted(results, key=lambda r: 0 if relevant(prop, r)[0] else (1 if (r["hrc"] != 0 or r["hang"] or r["bad"]) else 2)):
         mons, diffs = relevant(prop, r)
         crashed = r["hrc"] != 0 or r["hang"] or r["bad"]
         if not mons and not diffs and not crashed:
             continue
+        EXTRA_ENV.clear()
+        EXTRA_ENV.update(r.get("env") or {})
         if mons:
             m = mons[0]
             cid = vlib.field(m, "case")
@@ -196,7 +230,7 @@ def report_failures(prop, tier, seed, results):
             path = vlib.write_replay(prop, f"{seed}-{len(seen_canon)}",
                                      [f"property {prop}: {spec['what']}", f"monitor verdict on the implementation's transcript: {m}",
                                       f"found by: h_world {' '.join(r['tail'])} (case {cid}); minimised by ddmin",
-                                      f"replay: bin/check {prop} --replay <this file>"], ops, "world")
+                                      f"replay: bin/check {prop} --replay <this file>"] + env_header(), ops, "world")
             print(f"VIOLATION property={prop} replay={path}")
             violations += 1
         elif diffs:
@@ -264,7 +298,7 @@ def report_failures(prop, tier, seed, results):
                                          [f"property {prop}: {spec['what']}",
                                           f"the process running the real code dies inside the last operation of this script (harness exit status {r['hrc']}; {r['err'].strip()[-300:]})",
                                           f"found by: h_world {' '.join(r['tail'])} (case {cid}); minimised by ddmin",
-                                          f"replay: bin/check {prop} --replay <this file>"], ops, "world")
+                                          f"replay: bin/check {prop} --replay <this file>"] + env_header(), ops, "world")
                 print(f"VIOLATION property={prop} replay={path}")
             else:
                 path = vlib.write_replay(prop, f"crash-{seed}", [f"harness run {r['label']} did not complete: rc={r['hrc']} {r['hang']} {r['bad'][:2]}", r["err"]])
@@ -294,11 +328,24 @@ def check(prop, tier, seed, t0):
         with ThreadPoolExecutor(max_workers=16) as ex:
             results = list(ex.map(run_one, plan(prop, tier, seed)))
         violations += report_failures(prop, tier, seed, results)
+        EXTRA_ENV.clear()
     cs_stats = {}
     if ok and prop == "C08":
         # "... or added to a change set": the ledger of the changeset domain (instrumented amounts) belongs to C08 too
         import dom_changeset
         v, cs_stats = dom_changeset.ledger_pass(prop, tier, seed)
+        violations += v
+    if ok and prop == "C19":
+        # "... clear ..." of a change set: ChangeSet::clear interrupted by a panicking destructor (changeset domain)
+        import dom_changeset
+        v, cs_stats = dom_changeset.fault_pass(prop, tier, seed)
+        violations += v
+    conc_stats = {}
+    if ok and prop == "C17":
+        # "creations ... through all paths": creations racing through shared access (scheduled at the H1 yield points
+        # and on real threads), judged by the driver's C17 monitor on the conc domain
+        import dom_conc
+        v, conc_stats = dom_conc.c17_pass(tier, seed)
         violations += v
     # evidence
     stats = {}
@@ -338,6 +385,7 @@ def check(prop, tier, seed, t0):
         "ops_by_kind": {k[3:]: v for k, v in stats.items() if k.startswith("op_")},
         "runs": [r["label"] for r in results],
         "changeset_ledger": cs_stats,
+        "concurrent_creation_pass": conc_stats,
         "samples": samples,
         "exhaustive": False,
     }
@@ -354,10 +402,18 @@ def replay(prop, path):
     if "# domain changeset" in open(path).read():
         import dom_changeset
         return dom_changeset.replay(prop, path)
+    if "# domain conc" in open(path).read():
+        import dom_conc
+        return dom_conc.replay(prop, path)
     LEDGER["on"] = bool(PROPS[prop].get("ledger"))
     ok, blog = vlib.build_harness([BIN])
     if not ok:
         print(blog); return 2
+    EXTRA_ENV.clear()
+    for l in open(path):
+        if l.startswith("# env ") and "=" in l:
+            k, v = l[6:].strip().split("=", 1)
+            EXTRA_ENV[k] = v
     lines, hrc, err = vlib.pipe_to_driver([vlib.hbin(BIN), "run", path], env=henv())
     for l in lines:
         print(l)
